@@ -5,6 +5,7 @@ import (
 	"fmt"
 	"time"
 
+	"github.com/llir/llvm/ir"
 	"github.com/llir/llvm/zzsim/simrt"
 )
 
@@ -40,14 +41,17 @@ type c14Outcome struct {
 func c14Run(sc *C14Scenario) *c14Outcome {
 	out := &c14Outcome{}
 	// Reference: the steps alone.
-	refM, _, err := runProgramAlone(sc.Prog)
+	simrt.Load((&Tape{}).config())
+	var refM *ir.Module
+	var err error
+	simCall(func() { refM, _, err = runProgramAlone(sc.Prog) })
 	if err != nil {
 		out.skip = "construction program panics without any observer (generator problem or C03)"
 		out.detail = err.Error()
 		return out
 	}
 	var refText string
-	if pan, msg := protect(func() { refText = refM.String() }); pan {
+	if pan, msg := protect(func() { simCall(func() { refText = refM.String() }) }); pan {
 		out.skip = "final print panics without any observer (not C14's business)"
 		out.detail = msg
 		return out
@@ -112,7 +116,7 @@ func c14Run(sc *C14Scenario) *c14Outcome {
 	}
 	mc.finalize()
 	var final, final2 string
-	if pan, msg := protect(func() { final = mc.m.String() }); pan {
+	if pan, msg := protect(func() { simCall(func() { final = mc.m.String() }) }); pan {
 		out.class, out.sig = "final-print-panics", normDigits(clip(msg, 200))
 		out.detail = "the same steps print fine without the observer calls; with them the final String() panics: " + msg
 		return out
@@ -122,7 +126,7 @@ func c14Run(sc *C14Scenario) *c14Outcome {
 		out.detail = "final String() differs from the observer-free run: " + firstDiff(final, refText)
 		return out
 	}
-	if pan, msg := protect(func() { final2 = mc.m.String() }); pan || final2 != final {
+	if pan, msg := protect(func() { simCall(func() { final2 = mc.m.String() }) }); pan || final2 != final {
 		out.class, out.sig = "print-twice-differs", "final"
 		out.detail = "printing the final module twice in a row gives different results: " + msg + " " + firstDiff(final, final2)
 		return out
